@@ -332,6 +332,23 @@ Proof.
   unfold setp. constructor; cbn [st_index st_lines]; auto. rewrite !getp_bupdate_same. reflexivity.
 Qed.
 
+Lemma mark_other st q m ls e : q <> P ->
+  getp P (mark st q m ls e) = getp P st /\ st_index (mark st q m ls e) = st_index st /\
+  st_lines (mark st q m ls e) = st_lines st /\ map fst (st_progs (mark st q m ls e)) = map fst (st_progs (mark st q m ls e)).
+Proof.
+  intros N. unfold mark. destruct (ps_handle (getp q st)); [|auto].
+  destruct (exec_effect _ _ _ _); [|auto].
+  unfold setp. rewrite getp_bupdate_other by congruence. auto.
+Qed.
+
+Lemma mark_same st1 st2 m ls e : inv st1 st2 -> inv (mark st1 P m ls e) (mark st2 P m ls e).
+Proof.
+  intros [Ip Iv Ih1 Ih2 Io Il]. unfold mark. rewrite <- Ip.
+  destruct (ps_handle (getp P st1)); [|constructor; auto].
+  destruct (exec_effect _ _ _ _); [|constructor; auto].
+  unfold setp. constructor; cbn [st_index st_lines]; auto. rewrite !getp_bupdate_same. reflexivity.
+Qed.
+
 Lemma getp_line st l now :
   getp P (line vmstep st l now) = line_prog vmstep P (getp P st) l now.
 Proof.
@@ -491,7 +508,7 @@ Record inv2 (st1 st2 : state) : Prop := mkinv2 {
 (* the loads and unloads of the other programs are dropped *)
 Definition keep (o : op) : bool :=
   match o with
-  | OLoad q _ | OUnload q => bytes_eqb q P
+  | OLoad q _ | OUnload q | OMark q _ _ _ => bytes_eqb q P
   | _ => true
   end.
 Definition restrict (ops : list op) : list op := filter keep ops.
@@ -517,7 +534,11 @@ Lemma step_kept st1 st2 o :
   end ->
   inv2 (step st1 o) (step st2 o).
 Proof.
-  intros [I N1 N2] K DA. destruct o as [q src|q|l now|el]; cbn [Loader.step].
+  intros [I N1 N2] K DA. destruct o as [q src|q|l now|el|q m ls e]; cbn [Loader.step].
+  5:{ cbn [keep] in K. apply bytes_eqb_spec in K. subst q. constructor.
+      - apply mark_same. exact I.
+      - unfold mark. destruct (ps_handle _); [destruct (exec_effect _ _ _ _)|]; exact N1.
+      - unfold mark. destruct (ps_handle _); [destruct (exec_effect _ _ _ _)|]; exact N2. }
   - cbn [keep] in K. apply bytes_eqb_spec in K. subst q. constructor.
     + apply load_same; assumption.
     + apply load_nodup. exact N1.
@@ -535,7 +556,10 @@ Qed.
 
 Lemma step_dropped st1 st2 o : inv2 st1 st2 -> keep o = false -> inv2 (step st1 o) st2.
 Proof.
-  intros [[Ip Iv Ih1 Ih2 Io Il] N1 N2] K. destruct o as [q src|q|l now|el]; cbn [keep] in K; try discriminate.
+  intros [[Ip Iv Ih1 Ih2 Io Il] N1 N2] K. destruct o as [q src|q|l now|el|q m ls e]; cbn [keep] in K; try discriminate.
+  3:{ apply bytes_eqb_false in K. destruct (mark_other P st1 q m ls e K) as (A & B & C & _).
+      cbn [Loader.step]. constructor; [|rewrite B; exact N1|exact N2].
+      constructor; try rewrite B; auto; congruence. }
   - apply bytes_eqb_false in K. destruct (load_other c1 c2 omit compile P st1 q src K) as (A & B & C & D).
     cbn [Loader.step]. constructor; [|apply load_nodup; exact N1|exact N2].
     constructor; auto; try congruence; try (intros name; rewrite B; apply Iv).
@@ -552,7 +576,7 @@ Proof.
   induction ops as [|o r IH]; intros st1 st2 I NC; cbn [fold_left restrict filter]; [exact I|].
   destruct NC as [DA NC]. destruct (keep o) eqn:K.
   - cbn [fold_left]. apply IH; [|exact NC]. apply step_kept; [exact I|exact K|].
-    destruct o as [q src| | |]; auto. apply DA. cbn [keep] in K. apply bytes_eqb_spec in K. exact K.
+    destruct o as [q src| | | |]; auto. apply DA. cbn [keep] in K. apply bytes_eqb_spec in K. exact K.
   - apply IH; [|exact NC]. apply step_dropped; assumption.
 Qed.
 
